@@ -8,6 +8,7 @@ import Driver.CollectCmd
 import Driver.DryCmd
 import Driver.TopCmd
 import Driver.CatalogCmd
+import Driver.ExprCmd
 /-! `driver`: one request per line on stdin, one answer per line on stdout. -/
 namespace Driver
 
@@ -19,6 +20,7 @@ structure St where
   hash : HashSt := {}
   collect : CollectSt := {}
   catalog : CatalogSt := {}
+  expr : ExprSt := {}
 
 def step (st : St) (line : String) : St × String :=
   let (cmd, args) := parseLine line
@@ -49,6 +51,9 @@ def step (st : St) (line : String) : St × String :=
   else if cmd.startsWith "catalog." then
     let (s, out) := catalogHandle st.catalog cmd args
     ({ st with catalog := s }, out)
+  else if cmd.startsWith "expr." then
+    let (s, out) := exprHandle st.expr cmd args
+    ({ st with expr := s }, out)
   else if cmd == "ping" then (st, "pong")
   else (st, "bad-op")
 
